@@ -1401,9 +1401,17 @@ func (ls *LState) NewThread() (*LState, context.CancelFunc) {
 	thread.Env = ls.Env
 	var f context.CancelFunc = nil
 	if ls.ctx != nil {
+		// derive from the context that was attached by the user, not from the
+		// creating coroutine's own child context (which is cancelled when the
+		// creator dies)
+		base := ls.ctx
+		if ls.ctxCancelFn != nil && ls.ctxBase != nil {
+			base = ls.ctxBase
+		}
 		thread.mainLoop = mainLoopWithContext
-		thread.ctx, f = context.WithCancel(ls.ctx)
+		thread.ctx, f = context.WithCancel(base)
 		thread.ctxCancelFn = f
+		thread.ctxBase = base
 	}
 	return thread, f
 }
